@@ -214,7 +214,7 @@ fn items(tier: Tier) -> &'static Vec<(Sc, u32)> {
         let mut v = Vec::new();
         let mut push = |kinds: Vec<Kind>, v: &mut Vec<(Sc, u32)>| {
             let n = kinds.len();
-            let bound = if n <= 3 { 1 } else { 0 };
+            let bound = if thorough && n <= 2 { 2 } else if n <= 3 || (thorough && n <= 4) { 1 } else { 0 };
             if kinds.iter().all(|k| k.small()) {
                 v.push((Sc { kinds, release: Release::CollectAll }, bound));
             } else {
